@@ -6,7 +6,7 @@ schedule-dependent order.  It never monkey-patches PyRTL.
   python c20_worker.py <job.json> <out.json>
 
 job = {'noise': int, 'textdir': path, 'designs': [spec, ...], 'mode': 'export'|'passes'|'readonly'}
-spec = {'key': str, 'seed': str, 'cls': 'plain'|'sani'|'zeros'|'both'|'memtie'|'samename'|'romonly', ...}
+spec = {'key': str, 'seed': str, 'cls': 'plain'|'sani'|'zeros'|'both'|'memtie'|'samename'|'romonly'|'case'|'genlike'|'blif'|'iscas', ...}
 
 Design generation is a pure function of spec['seed'] (random.Random seeded with a
 str is independent of the hash seed; gen_designs iterates lists only).  The
@@ -35,6 +35,10 @@ SANI_POOL = ['w 0', 'w 1', 'a b', 'x-y', 'p.q', 'd[3]', '1st', "q'x", 'wire', 'r
              'h~', 'not', 'or', 'and', 'xor', 'signed', 'time', 'w 00', 'w 01']
 ZERO_FAMILIES = [['x1', 'x01', 'x001'], ['y2', 'y02'], ['n0', 'n00', 'n000'], ['a1b2', 'a01b2', 'a1b02'],
                  ['k7', 'k07', 'k007', 'k0007'], ['z_3', 'z_03'], ['v10', 'v010']]
+# user wire names that look like identifiers the exporters / simulators generate themselves
+GENLIKE_POOL = ['_ver_out_tmp_0', '_ver_out_tmp_1', '_ver_out_tmp_2', '_vcd_tmp_0', '_vcd_tmp_1', '_vcd_tmp_2',
+                '_ver_out_tmp_01', '_vcd_tmp_00', '_fastsim_tmp_0', '_sani_temp0', 'mem_0', 'mem_1', 'mem_2', 'mem_12',
+                'tb_iter', 'block', 'T_0', 'T_1', 'toplevel', 'tb']
 # names differing only in letter case, and in case + leading zeros (a case-insensitive key would tie them)
 CASE_FAMILIES = [['data', 'DATA', 'Data'], ['q1', 'Q1', 'q01', 'Q01'], ['sel', 'SEL'], ['bus_7', 'BUS_7', 'Bus_07'],
                  ['ack', 'Ack', 'ACK', 'aCK'], ['r2d2', 'R2D2', 'r02d2']]
@@ -256,6 +260,14 @@ def build(spec, noise):
                 w.name = nm
                 for lst in (free_named, free_inner):
                     lst[:] = [x for x in lst if x is not w]
+    if cls == 'genlike':
+        pool_w = [w for w in named + inner]
+        k = min(len(pool_w), rng.randint(3, 7))
+        chosen = rng.sample(pool_w, k)
+        nms = rng.sample(GENLIKE_POOL, max(1, k - 2)) + rng.sample(SANI_POOL, 2)
+        rng.shuffle(nms)
+        for w, nm_ in zip(chosen, nms):
+            w.name = nm_
     if cls == 'case':
         # whole families spread over wires of ANY kind (print_trace / print_vcd sort all traced names
         # together; the Verilog lists sort per kind), at least one family inside one kind
@@ -291,20 +303,20 @@ def build(spec, noise):
 
 
 def _add_shared_enable_ports(d, rng):
-    """two write ports of one memory sharing ONE write-enable wire (distinct addresses)"""
+    """2-4 write ports of one memory sharing ONE write-enable wire (provably distinct addresses)"""
     pool = list(d.inputs) + list(d.regs)
     src = rng.choice(pool)
-    m = pyrtl.MemBlock(bitwidth=rng.choice([1, 2, 4]), addrwidth=2, name='shmem',
+    m = pyrtl.MemBlock(bitwidth=rng.choice([1, 2, 4]), addrwidth=3, name='shmem',
                        max_read_ports=None, max_write_ports=None, asynchronous=True)
     en = pyrtl.WireVector(1, 'shared_we')
     en <<= src[0]
     hi = gen_designs.fit(rng, rng.choice(pool), 1)
-    for lsb in (0, 1):
-        addr = pyrtl.concat(hi, pyrtl.Const(lsb, bitwidth=1))
+    for low in rng.sample(range(4), rng.randint(2, 4)):
+        addr = pyrtl.concat(hi, pyrtl.Const(low, bitwidth=2))
         data = gen_designs.fit(rng, rng.choice(pool), m.bitwidth)
         m[addr] <<= pyrtl.MemBlock.EnabledWrite(data, en)
     o = pyrtl.Output(m.bitwidth, 'shmem_rd')
-    o <<= m[gen_designs.fit(rng, rng.choice(pool), 2)]
+    o <<= m[gen_designs.fit(rng, rng.choice(pool), 3)]
     d.outputs.append(o)
     d.mems.append(m)
 
@@ -448,10 +460,80 @@ def store(textdir, key, text):
 
 # ------------------------------------------------------------------ mode: export
 
-def run_export(spec, noise, textdir):
+def duplicate_identifiers(exporter, text):
+    """identifiers an emitted text DECLARES more than once (specification-level parse of the text)"""
+    ids = []
+    if exporter.endswith('print_vcd'):
+        for line in text.split('\n'):
+            if line.startswith('$var '):
+                ids.append(line.split(' ')[3])
+    elif exporter.endswith('output_to_verilog') or exporter.endswith('output_verilog_testbench'):
+        for line in text.split('\n'):
+            m = re.match(r'    (?:input|output|reg|wire|integer)(?:\[\d+:0\])? ([^\s;\[]+)(?:\[\d+:0\])?;', line)
+            if m:
+                ids.append(m.group(1))
+        m = re.search(r'^    toplevel (\S+)\(', text, flags=re.M)
+        if m:
+            ids.append(m.group(1))
+    seen, dup = set(), []
+    for x in ids:
+        if x in seen and x not in dup:
+            dup.append(x)
+        seen.add(x)
+    return dup
+
+
+def export_texts(block, tracer, opts, order, prefix=''):
+    """the four text exporters on one block/trace, called in the given ORDER (a permutation of 0..3),
+    then all called once more: the second text of each must equal the first (an export must not
+    change what a later export prints)"""
+    def verilog():
+        f = io.StringIO()
+        pyrtl.output_to_verilog(f, add_reset=opts['add_reset'], block=block)
+        return f.getvalue()
+
+    def testbench():
+        f = io.StringIO()
+        pyrtl.output_verilog_testbench(f, simulation_trace=tracer, add_reset=opts['add_reset'],
+                                       cmd='$display("%d", 1);', block=block)
+        return f.getvalue()
+
+    def vcd():
+        f = io.StringIO()
+        tracer.print_vcd(f, include_clock=opts['include_clock'])
+        return f.getvalue()
+
+    def trace():
+        f = io.StringIO()
+        tracer.print_trace(f, base=opts['base'], compact=opts['compact'])
+        return f.getvalue()
+
+    calls = [('output_to_verilog', verilog), ('output_verilog_testbench', testbench),
+             ('print_vcd', vcd), ('print_trace', trace)]
+    texts, again = {}, {}
+    for k in order:
+        nm_, fn = calls[k]
+        try:
+            texts[prefix + nm_] = fn()
+        except Exception as e:
+            texts[prefix + nm_] = 'ERR %s: %s' % (type(e).__name__, str(e)[:120])
+    for nm_, fn in calls:
+        try:
+            again[prefix + nm_] = fn()
+        except Exception as e:
+            again[prefix + nm_] = 'ERR %s: %s' % (type(e).__name__, str(e)[:120])
+    changed = sorted(k for k in texts if texts[k] != again[k])
+    return texts, changed
+
+
+ORDERS = [(0, 1, 2, 3), (2, 3, 0, 1), (3, 2, 1, 0), (1, 0, 3, 2), (2, 0, 3, 1), (0, 2, 1, 3)]
+
+
+def run_export(spec, noise, textdir, order_id=0):
     d, stim, opts = build(spec, noise)
     block = d.block
-    res = {'key': spec['key'], 'fp': fingerprint(block)}
+    order = ORDERS[order_id % len(ORDERS)]
+    res = {'key': spec['key'], 'fp': fingerprint(block), 'order': list(order)}
     names = [w.name for w in block.wirevector_set]          # the schedule, as observed
     res['set_order'] = names
     res['kinds'] = [type(w).__name__ for w in block.wirevector_set]     # parallel to set_order
@@ -465,21 +547,45 @@ def run_export(spec, noise, textdir):
                     str(n.args[1]) if n.op == '@' else None] for n in block.logic]
     sim, tracer = simulate(block, stim, track='all' if opts['track_all'] else 'named')
     res['tracked_order'] = [w.name for w in tracer.wires_to_track]
-    texts = {}
-    f = io.StringIO()
-    pyrtl.output_to_verilog(f, add_reset=opts['add_reset'], block=block)
-    texts['output_to_verilog'] = f.getvalue()
-    f = io.StringIO()
-    pyrtl.output_verilog_testbench(f, simulation_trace=tracer, add_reset=opts['add_reset'],
-                                   cmd='$display("%d", 1);', block=block)
-    texts['output_verilog_testbench'] = f.getvalue()
-    f = io.StringIO()
-    tracer.print_vcd(f, include_clock=opts['include_clock'])
-    texts['print_vcd'] = f.getvalue()
-    f = io.StringIO()
-    tracer.print_trace(f, base=opts['base'], compact=opts['compact'])
-    texts['print_trace'] = f.getvalue()
+    res['trace_keys'] = list(tracer.trace)
+    texts, changed = export_texts(block, tracer, opts, order)
+    res['changed_on_second_call'] = changed
     texts['simulation_trace'] = json.dumps(sorted((k, list(v)) for k, v in tracer.trace.items()))
+    # the same exporters on a copy_block() copy of the design (names are preserved by the copy)
+    try:
+        cp = pyrtl.copy_block(block, update_working_block=False)
+        csim, ctracer = simulate(cp, ({}, {}, stim[2]), track='all' if opts['track_all'] else 'named')
+        ctexts, cchanged = export_texts(cp, ctracer, opts, order, prefix='copy:')
+        ctexts['copy:simulation_trace'] = json.dumps(sorted((k, list(v)) for k, v in ctracer.trace.items()))
+        res['changed_on_second_call'] += cchanged
+        res['copy_fp_same'] = (fingerprint(cp) == res['fp'])
+    except Exception as e:
+        ctexts = {'copy:output_to_verilog': 'ERR %s: %s' % (type(e).__name__, str(e)[:160])}
+    texts.update(ctexts)
+    # CompiledSimulation (traces Inputs/Outputs only; rebuilds the tracer's wire collection itself)
+    if spec.get('compiled'):
+        try:
+            ktr = pyrtl.SimulationTrace(block=block)
+            ks = pyrtl.CompiledSimulation(register_value_map=dict(stim[0]),
+                                          memory_value_map={m: dict(c) for m, c in stim[1].items()},
+                                          tracer=ktr, block=block)
+            for step in stim[2]:
+                ks.step(dict(step))
+            f = io.StringIO()
+            ktr.print_vcd(f, include_clock=opts['include_clock'])
+            texts['compiled:print_vcd'] = f.getvalue()
+            f = io.StringIO()
+            ktr.print_trace(f, base=opts['base'], compact=opts['compact'])
+            texts['compiled:print_trace'] = f.getvalue()
+            f = io.StringIO()
+            pyrtl.output_verilog_testbench(f, simulation_trace=ktr, add_reset=opts['add_reset'], block=block)
+            texts['compiled:output_verilog_testbench'] = f.getvalue()
+            texts['compiled:simulation_trace'] = json.dumps(sorted((k, list(v)) for k, v in ktr.trace.items()))
+        except Exception as e:
+            texts['compiled:print_vcd'] = 'ERR %s: %s' % (type(e).__name__, str(e)[:160])
+    res['duplicate_identifiers'] = {k: duplicate_identifiers(k, v) for k, v in texts.items()
+                                    if duplicate_identifiers(k, v)}
+    res['export_errors'] = {k: v[:200] for k, v in texts.items() if v.startswith('ERR ')}
     # FastSimulation: its generated code names wires through a _PythonSanitizer fed in set order; the
     # trace it produces must nevertheless be the same under every schedule
     try:
@@ -776,7 +882,10 @@ def main():
     fn = MODES[job['mode']]
     for spec in job['designs']:
         try:
-            out['results'].append(fn(spec, job['noise'], job['textdir']))
+            if job['mode'] == 'export':
+                out['results'].append(fn(spec, job['noise'], job['textdir'], job.get('order', 0)))
+            else:
+                out['results'].append(fn(spec, job['noise'], job['textdir']))
         except Exception as e:
             import traceback
             out['results'].append({'key': spec['key'], 'worker_error': traceback.format_exc()[-1500:]})
